@@ -49,7 +49,9 @@ for nm, target_fn, use, extra, loops in (
          {('nfc.clf.ContactlessFrontend._rdwr_connect', 'While', 0): LoopSpec(invariant=['True'])}),
         ('_card_connect', None, ['C15/nfc.tag.emulate'], {'target': LT(), 'timeout': 1},
          {('nfc.clf.ContactlessFrontend._card_connect', 'While', 0): LoopSpec(
-             invariant=['True'], havoc={'tag_rsp': Opt(Bytes(0, 64, mutable=True))})})):
+             invariant=['True'], havoc={'tag_rsp': Opt(Bytes(0, 64, mutable=True)),
+                                 # whichever of the two the loop carries over (command or response)
+                                 'tag_cmd': Opt(Bytes(0, 64, mutable=True))})})):
     o = {'on-discover': EV('discover', 'nondet_bool()'), 'on-connect': EV('connect', 'nondet_bool()'),
          'on-release': EV('release', 'nondet_int(0, 1)')}
     o.update(extra)
